@@ -38,7 +38,9 @@ ASSUMPTIONS = [
     '--disable-headers does not name via, content-length, transfer-encoding (the operator would remove framing)',
     'a segment is one non-empty recv() result not larger than the client receive buffer',
     'h11 (oracle) rejects non-ASCII request targets and HTTP/1.1 requests without Host: such requests are judged '
-    'by a minimal RFC 7230 reader written for the oracle instead (recorded in the histogram as reader=rfc)',
+    'by a minimal RFC 7230 reader written for the oracle instead (recorded in the histogram as reader=rfc); the same '
+    'reader judges forwarded messages h11 calls "conflicting Content-Length" because the two spellings differ '
+    '(001 and 1): RFC 7230 3.3.2 speaks of the same decimal value',
 ]
 EXHAUSTIVE = {}
 EXPLANATION = ('theorems quantify over all well-formed requests and all segmentations (the latter through the C03 '
@@ -173,7 +175,7 @@ def wf(req):
     m, host, pq, ver = L(req['m']), L(req['host']), L(req['pq']), L(req['ver'])
     if not _token(m) or m == b'CONNECT':
         return False
-    if not host or not _target_bytes(host) or any(c in b':@/?#[]' for c in host):
+    if not host or not all(33 <= c < 127 for c in host) or any(c in b':@/?#[]' for c in host):
         return False
     if req.get('port') is not None:
         p = L(req['port'])
@@ -234,46 +236,52 @@ def _args(case):
 
 def run_conn(case):
     """Drive one client connection through the real handler.  Returns, per request, the exact bytes the
-    upstream peer read for it (None = nothing was forwarded)."""
+    upstream peer read for it (None = nothing was forwarded).  The upstream socket is writable at once:
+    whatever is queued for it is flushed after every client segment."""
     out = []
     with sim.World(args=_args(case), strict=False) as w:
         h, cs, cp = w.new_client()
         dead = False
+
+        def flush_upstream():
+            nonlocal dead
+            if not w.upstreams:
+                return b''
+            us, up, _addr = w.upstreams[0]
+            upstream = getattr(h.plugin, 'upstream', None)
+            for _ in range(4000):
+                if dead or upstream is None or upstream.closed or not upstream.has_buffer():
+                    break
+                if w.tick(h, [], [us.fileno()]) is not False:
+                    dead = True
+                up.pump()
+            up.pump()
+            got = bytes(up.inbox)
+            del up.inbox[:]
+            return got
+
         for i, req in enumerate(case['reqs']):
             if dead:
                 out.append(None)
                 continue
+            got = b''
             for seg in segments(req):
                 cs.script_recv(('data', seg))
-                r = w.tick(h, [cs.fileno()], [])
-                if r is not False:
+                if w.tick(h, [cs.fileno()], []) is not False:
                     dead = True
                     break
-            if not w.upstreams:
-                out.append(None)
-                dead = True
-                continue
-            us, up, _addr = w.upstreams[0]
-            plugin = h.plugin
-            upstream = getattr(plugin, 'upstream', None)
-            for _ in range(4000):
-                if dead or upstream is None or upstream.closed or not upstream.has_buffer():
+                got += flush_upstream()
+                if dead:
                     break
-                r = w.tick(h, [], [us.fileno()])
-                up.pump()
-                if r is not False:
-                    dead = True
-            up.pump()
-            got = bytes(up.inbox)
-            del up.inbox[:]
             out.append(got if got else None)
-            if dead or i == len(case['reqs']) - 1:
+            if dead or not w.upstreams or i == len(case['reqs']) - 1:
+                dead = dead or not w.upstreams
                 continue
             # the origin answers; the answer is relayed to the client before the next request is sent
+            us, up, _addr = w.upstreams[0]
             resp = RESPONSES[(i + len(got)) % len(RESPONSES)]
             up.send(resp)
-            r = w.tick(h, [us.fileno()], [])
-            if r is not False:
+            if w.tick(h, [us.fileno()], []) is not False:
                 dead = True
                 continue
             for _ in range(100):
@@ -406,7 +414,7 @@ def read_forwarded(raw):
         return 'h11', _h11_read(raw)
     except h11.RemoteProtocolError as e:
         msg = str(e)
-        if 'illegal request line' in msg or 'Missing mandatory Host' in msg:
+        if 'illegal request line' in msg or 'Missing mandatory Host' in msg or 'conflicting Content-Length' in msg:
             return 'rfc', _rfc_read(raw)
         raise
 
@@ -463,7 +471,7 @@ def judge(req, disable, got, first):
 
 
 def disable_set(disable):
-    return {L(d) for d in disable}
+    return set(disable)
 
 
 def _spelling_ok(got_fields, want_fields):
